@@ -383,10 +383,27 @@ func FSWrite(f *os.File, b []byte) (int, error) {
 			if n > 0 && n < len(b) {
 				f.Write(b[:n])
 			}
+			// the harness may kill the writing process right here (torn chunk on disk)
+			FSHook("after-short-write", f.Name(), max(n, 0))
 			return max(n, 0), err
 		}
 	}
 	return f.Write(b)
+}
+
+func FSWriteAt(f *os.File, b []byte, off int64) (int, error) {
+	if FSHook != nil {
+		Yield("fs:write")
+		n, err := FSHook("write", f.Name(), len(b))
+		if err != nil {
+			if n > 0 && n < len(b) {
+				f.WriteAt(b[:n], off)
+			}
+			FSHook("after-short-write", f.Name(), max(n, 0))
+			return max(n, 0), err
+		}
+	}
+	return f.WriteAt(b, off)
 }
 
 // KnobInit wraps the initialiser of a package-level variable that replaced a
